@@ -23,7 +23,7 @@ TRUSTED = [
     'the first-request parser / plugin dispatch is ABSTRACT in Net/Handler.v (oracle read off the real objects at the handle_data boundary)',
     'FakeSock / FakeSelector stand for the kernel socket and selector; real TCP RST/linger behaviour after close() is not modelled']
 ASSUMPTIONS = ['"provided it keeps reading": cases in which a client send fails (broken pipe / OS error) are excluded from the property oracle',
-               'model describes the tree with proposed_fixes/C07-write-side-teardown.diff and C01-guard-response-parse.diff applied',
+               'model describes /repo after fix commits ba95ac6 (C01-guard-response-parse) and ae6ca23 (C07-write-side-teardown)',
                'an exception escaping handle_events (Raised) ends the connection without a flush in threadless mode; none is reachable in the '
                'modelled code except TimeoutError without errno from a non-blocking upstream recv (cannot occur on a non-blocking socket)']
 SHARD = 40
@@ -35,7 +35,7 @@ def add_threaded(rng, c):
     pre = [rng.choice([None, None, 1, 2, m, 'block', 0]) for _ in range(rng.choice([0, 2, 5]))]
     if rng.random() < 0.1:
         pre.append(rng.choice(['pipe', 'oserror']))
-    c['sel'] = pre + [rng.choice([1, 2, m, m + 1, 100000]) for _ in range(rng.choice([3, 40, 120]))]
+    c['sel'] = pre + [rng.choice([1, 2, m, m + 1, 100000]) for _ in range(rng.choice([3, 60, 250]))]
     return c
 
 
@@ -100,7 +100,8 @@ def oracle(case, out):
         # shutdown()'s blocking flush: complete delivery whenever the scripted selector let the client keep reading
         sel = case.get('sel', [])
         clean = not any(x in ('pipe', 'oserror') for x in sel)
-        enough = clean and sum(1 for x in sel if isinstance(x, int) and x > 0) >= 2 * len(queued) + 4
+        pend0 = steps[-1]['cpend'] if steps else 0          # pending when the loop ended, before shutdown()
+        enough = clean and sum(1 for x in sel if isinstance(x, int) and x > 0) >= 2 * pend0 + 2
         if fin['cout'] != queued and enough:
             return 'threaded shutdown closed the client with %d of %d queued bytes undelivered' % (len(queued) - len(fin['cout']), len(queued))
         if not fin['cclosed']:
